@@ -62,7 +62,10 @@ def main():
     finally:
         sh("git", "-C", "/repo", "worktree", "remove", "--force", WT)
         shutil.rmtree(WT, ignore_errors=True)
-        shutil.rmtree(SCR, ignore_errors=True)
+        if "--keep" not in sys.argv:
+            shutil.rmtree(SCR, ignore_errors=True)
+        else:
+            print("scratch kept:", SCR)
     missed = [m["name"] for m, s, _ in results if s != "CAUGHT"]
     print("caught %d / %d" % (len(results) - len(missed), len(results)), "missed:", missed)
 
